@@ -3,7 +3,7 @@ import ast
 from ..core.model import AnalysisError, unparse, dotted, walk_no_defs
 from ..core.flow import Flow
 from ..core.callgraph import CallGraph
-from ..core.escape import Escapes, unguarded_constant_subscripts
+from ..core.escape import Escapes, unguarded_constant_subscripts, unguarded_variable_subscripts
 from ..core import match as M
 
 ENTRIES = ["PKey._read_private_key_file", "PKey._read_private_key", "RSAKey._decode_key", "ECDSAKey._decode_key",
@@ -76,10 +76,11 @@ def run(prog, chk):
         if f.module.name in ("pkey", "rsakey", "ecdsakey", "ed25519key"):
             if f.qual not in idx_cache:
                 try:
-                    idx_cache[f.qual] = unguarded_constant_subscripts(prog, f)
+                    idx_cache[f.qual] = [(x, why) for (x, need, have, why) in unguarded_constant_subscripts(prog, f)] + \
+                        list(unguarded_variable_subscripts(prog, f))
                 except AnalysisError:
                     idx_cache[f.qual] = []
-            for (x, need, have, why) in idx_cache[f.qual]:
+            for (x, why) in idx_cache[f.qual]:
                 out.append((x, "IndexError", why))
         return out
     esc = Escapes(prog, cg, extra_catalog=EXTRA, extra_sites=extra_sites)
@@ -202,3 +203,31 @@ def run(prog, chk):
         chk.ob("R3.loaded-key-type-checked", K, ok, f.loc,
                "the key returned by load_der_private_key is %s before self.* is set from it" % (
                    "checked with isinstance(..) and a raising arm" if ok else "not type-checked with a raising arm (a %s-tagged file holding another key type: AttributeError / AssertionError)" % K))
+
+    # ---- R4 the halves of an Ed25519 key are compared where the code derives one from the other ---------------
+    pf = prog.func("Ed25519Key._parse_signing_key_data")
+    fl = Flow(prog, pf, implicit=False)
+    appends = [n for (n, c) in fl.nodes_with_call(name="signing_keys.append")]
+    sk = [n for n in fl.nodes(lambda n: n.kind == "stmt" and isinstance(n.ast, ast.Assign) and M.is_call(n.ast.value, name="nacl.signing.SigningKey"))]
+    if len(appends) != 1 or len(sk) != 1:
+        raise AnalysisError("Ed25519Key._parse_signing_key_data", "signing key construction / collection not recognised")
+    skv = unparse(sk[0].ast.targets[0])
+    derived = "%s.verify_key.encode()" % skv
+
+    def is_halves_check(t):
+        if not isinstance(t, ast.Compare) or not all(isinstance(o, ast.Eq) for o in t.ops):
+            return False
+        operands = [unparse(x) for x in [t.left] + list(t.comparators)]
+        return derived in operands and len(operands) >= 2
+    conds = fl.nodes(lambda n: n.kind == "cond" and is_halves_check(n.ast))
+    ok = bool(conds) and fl.dominated(appends, guard_edge=fl.edge_guard(is_halves_check, "T"))
+    stored = []
+    for c in conds:
+        stored += [unparse(x) for x in [c.ast.left] + list(c.ast.comparators) if unparse(x) != derived]
+    chk.ob("R4.public-half-derived-from-seed-is-compared", "Ed25519Key._parse_signing_key_data", ok, pf.loc,
+           "a key is collected only when %s (derived from the private seed) equals the stored public copies %s%s" % (
+               derived, stored or "", "" if ok else " - no such comparison dominates signing_keys.append: a file whose halves disagree would load"))
+    if ok:
+        want = {"public", "public_keys[i]", "key_data[32:]"}
+        chk.ob("R4.every-public-copy-compared", "Ed25519Key._parse_signing_key_data", want <= set(stored), pf.loc,
+               "compared copies: %s (the outer public key, the inner copy, the second half of the key data)" % sorted(set(stored)))
